@@ -214,6 +214,12 @@ for mn in sorted(MODS):
                 ok += 1
             except:
                 bad += 1
+        # many values no call has seen before: whatever the function remembers (a table, a cache) grows while other contexts do the same
+        for j in range(400):
+            try:
+                f("fresh3-" + fn + "-" + str(n) + "-" + str(j))
+            except:
+                pass
     print(mn, ok, bad)
 '''
     return src
